@@ -308,8 +308,10 @@ def run(ctx):
     log("C13: exhaustive %s; liveness %s; replay %s; %d replay transitions, %d walks, %d steps; sections %d scenarios; real-host rounds %d; L2 divergences %d; guards %s"
         % ([(r[0], r[1], r[2], r[3]) for r in eres], live, [(r[0], r[8], r[3], r[4], r[7]) for r in rres],
            edges_total, n_walks, res["steps"], sections["replayed"], hosts["replayed"], div, guards))
+    push = push_part(ctx, ctx.tier == "thorough")
     cov = evidence.mc_coverage(
-        states, trans, res["replayed"] + sections["replayed"] + hosts["replayed"], res.get("samples") or [], exhaustive=True,
+        states + push.get("states", 0), trans + push.get("transitions", 0),
+        res["replayed"] + sections["replayed"] + hosts["replayed"] + push.get("replayed", 0), res.get("samples") or [], exhaustive=True,
         checker_cmd="tlc C13_MC.tla (template C13_MC.cfg instantiated: exhaustive %s + liveness live2; printed+replayed %s)" % (
             ",".join(r[0] for r in eres), ",".join(r[0] for r in rres)),
         instances=len(eres) + len(rres) + 1,
@@ -320,7 +322,8 @@ def run(ctx):
         replay_distinct_transitions_executed=res["distinct"], replay_transition_kinds=dict(tot),
         harness_variants=modes, section_scenarios=sections["replayed"], section_extra=sections.get("extra"),
         real_host_rounds=hosts["replayed"], real_host_extra=hx, real_host_rule=hosts.get("rule"),
-        divergences_L2=div, notes=ctx.notes[:10], rule=res.get("rule"), sections_rule=sections.get("rule"))
+        divergences_L2=div, notes=ctx.notes[:10], rule=res.get("rule"), sections_rule=sections.get("rule"),
+        push={k: v for k, v in push.items() if k != "samples"})
     return {"level": "model_checking", "coverage": cov, "assumptions": [
         "two peers (the remote R of every connection, a foreign F that is never connected), <=2 connections replayed (3 exhaustively), each opened and closed once",
         "message space = field classes (protocols none/few/with push/>cap; listen addrs none/own/with /p2p/F and /p2p/R suffix/>cap; key absent/R/F/garbage; signed record absent/valid/F's own/forged for R by F/PeerID F by R/other registered type/wrong domain/unregistered type/garbage/bad signature; agent+protocol version absent/two values), one field at a time around a benign base plus four fully hostile combinations; the chunking (1 frame, split, duplicated, 9 frames) is drawn per step from the seed",
@@ -329,6 +332,16 @@ def run(ctx):
         "peerstore = pstoremem (default and raised protocol maximum) behind a recording decorator; one walk in three uses a key book that stores whatever it is given (the KeyBook interface promises no check), so identify's own comparison is what is observed",
         "lifetime classes between steps come from the TTL arguments recorded by the decorator (L2); the L1 lifetime clauses are decided by expiry in virtual time at the end of every walk (every model state is the end of a walk)",
     ]}
+
+
+def push_part(ctx, thorough):
+    """The sender side (identify push / snapshot) lives in checks/C13push.py."""
+    import importlib
+    try:
+        mod = importlib.import_module("checks.C13push")
+    except ImportError:
+        return {"summary": "not built"}
+    return mod.run_part(ctx, thorough)
 
 
 MANIFEST = {
